@@ -1,6 +1,6 @@
 //go:build verif
 
-package mode2
+package mode2_test
 
 // C04 adapter for the exported Dilithium round-3.1 entry points (shared harness: sign/internal/verifc04).
 
@@ -8,6 +8,7 @@ import (
 	"testing"
 
 	"github.com/cloudflare/circl/sign"
+	. "github.com/cloudflare/circl/sign/dilithium/mode2"
 	"github.com/cloudflare/circl/sign/internal/verifc04"
 )
 
